@@ -1,6 +1,7 @@
 package gofakes3
 
 import (
+	"bytes"
 	"io"
 	"io/ioutil"
 	"strconv"
@@ -27,6 +28,9 @@ func parseClampedInt(in string, defaultValue, min, max int64) (int64, error) {
 	return v, nil
 }
 
+// readAllPreallocLimit is the largest declared size ReadAll allocates up front.
+const readAllPreallocLimit = 64 << 20
+
 // ReadAll is a fakeS3-centric replacement for ioutil.ReadAll(), for use when
 // the size of the result is known ahead of time. It is considerably faster to
 // preallocate the entire slice than to allow growslice to be triggered
@@ -35,17 +39,39 @@ func parseClampedInt(in string, defaultValue, min, max int64) (int64, error) {
 // It also reports S3-specific errors in certain conditions, like
 // ErrIncompleteBody.
 func ReadAll(r io.Reader, size int64) (b []byte, err error) {
-	var n int
-	b = make([]byte, size)
-	n, err = io.ReadFull(r, b)
-	if err == io.ErrUnexpectedEOF {
+	if size < 0 {
 		return nil, ErrIncompleteBody
-	} else if err != nil {
-		return nil, err
 	}
 
-	if n != int(size) {
-		return nil, ErrIncompleteBody
+	// The size is usually what a client declared in a header. Preallocating it
+	// is only safe up to a point: beyond that, memory is committed as the
+	// bytes actually arrive, so that a huge declared length with a small body
+	// is an incomplete body and not a failed (or fatal) allocation.
+	if size > readAllPreallocLimit {
+		var buf bytes.Buffer
+		n, err := buf.ReadFrom(io.LimitReader(r, size))
+		if err != nil {
+			return nil, err
+		} else if n == 0 {
+			return nil, io.EOF
+		} else if n != size {
+			return nil, ErrIncompleteBody
+		}
+		b = buf.Bytes()
+
+	} else {
+		var n int
+		b = make([]byte, size)
+		n, err = io.ReadFull(r, b)
+		if err == io.ErrUnexpectedEOF {
+			return nil, ErrIncompleteBody
+		} else if err != nil {
+			return nil, err
+		}
+
+		if n != int(size) {
+			return nil, ErrIncompleteBody
+		}
 	}
 
 	if extra, err := ioutil.ReadAll(r); err != nil {
